@@ -34,11 +34,13 @@ func init() {
 		if err != nil {
 			return "bad case: " + err.Error()
 		}
-		return c11Site(harness.New(nopTB{}, "C11", "replay", ""), cs)
+		_, f := c11Site(harness.New(nopTB{}, "C11", "replay", ""), cs)
+		return f
 	})
 }
 
-func c11Site(c *harness.Check, cs siteCase) string {
+// c11Site returns what the contract expects of the case (ok, error, unspec) and the failure, if any.
+func c11Site(c *harness.Check, cs siteCase) (string, string) {
 	args := make([]V, len(cs.Args))
 	argLits := make([]string, len(cs.Args))
 	for i, a := range cs.Args {
@@ -103,17 +105,17 @@ func c11Site(c *harness.Check, cs siteCase) string {
 	}
 	r := evalString(c, "json", mustJSON(cs), src, data.GoMap())
 	if r.Panic != nil {
-		return "panic: " + r.Panic.Value
+		return st, "panic: " + r.Panic.Value
 	}
 	switch st {
 	case "error":
-		return (want{St: "error", Why: why}).matches(r)
+		return st, (want{St: "error", Why: why}).matches(r)
 	case "ok":
 		if f := (want{St: "ok", Kind: "text", S: wantOut.String()}).matches(r); f != "" {
-			return f + " (template " + src + ")"
+			return st, f + " (template " + src + ")"
 		}
 	}
-	return ""
+	return st, ""
 }
 
 // litString writes v as a template literal.
@@ -129,25 +131,6 @@ func TestC11_OneCallSite(t *testing.T) {
 		form := rapid.SampledFrom([]string{"for-index", "for-index", "each-property", "ternary"}).Draw(rt, "form")
 		if form == "ternary" {
 			n = 2
-		}
-		var recvs []V
-		kinds := map[refint.Kind]bool{}
-		for i := 0; i < n; i++ {
-			var r V
-			switch rapid.IntRange(0, 9).Draw(rt, "recvKind") {
-			case 0, 1, 2:
-				r = refint.StrV(rapid.SampledFrom(c11Strings).Draw(rt, "str"))
-			case 3, 4, 5:
-				r = rapid.SampledFrom(c11Arrays()).Draw(rt, "arr")
-			case 6, 7:
-				r = refint.IntV(rapid.SampledFrom(interestingInts).Draw(rt, "int"))
-			case 8:
-				r = refint.FloatV(rapid.SampledFrom(interestingFloats).Draw(rt, "float"))
-			default:
-				r = rapid.SampledFrom([]V{refint.BoolV(true), refint.BoolV(false), refint.NilV()}).Draw(rt, "other")
-			}
-			recvs = append(recvs, r)
-			kinds[r.K] = true
 		}
 		fn := rapid.SampledFrom(shared).Draw(rt, "sharedFn")
 		if rapid.IntRange(0, 3).Draw(rt, "anyFn") == 0 {
@@ -166,6 +149,31 @@ func TestC11_OneCallSite(t *testing.T) {
 		case "append", "prepend", "then":
 			args = []V{rapid.SampledFrom(c11AnyArgs()).Draw(rt, "aarg")}
 		}
+		var recvs []V
+		kinds := map[refint.Kind]bool{}
+		for i := 0; i < n; i++ {
+			var r V
+			// mostly receivers for which the contract says something about this call
+			for try := 0; try < 8; try++ {
+				switch rapid.IntRange(0, 9).Draw(rt, "recvKind") {
+				case 0, 1, 2:
+					r = refint.StrV(rapid.SampledFrom(c11Strings).Draw(rt, "str"))
+				case 3, 4, 5:
+					r = rapid.SampledFrom(c11Arrays()).Draw(rt, "arr")
+				case 6, 7:
+					r = refint.IntV(rapid.SampledFrom(interestingInts).Draw(rt, "int"))
+				case 8:
+					r = refint.FloatV(rapid.SampledFrom(interestingFloats).Draw(rt, "float"))
+				default:
+					r = rapid.SampledFrom([]V{refint.BoolV(true), refint.BoolV(false), refint.NilV()}).Draw(rt, "other")
+				}
+				if ref := refBuiltin(r, fn, args); ref.St != refint.Unspec && (ref.St == refint.Err || ref.V.K != refint.KFloat && ref.V.K != refint.KObj) {
+					break
+				}
+			}
+			recvs = append(recvs, r)
+			kinds[r.K] = true
+		}
 		cs := siteCase{Fn: fn, Args: mj(args...), Form: form, AsData: rapid.Bool().Draw(rt, "asData")}
 		safe := true
 		for _, r := range recvs {
@@ -179,11 +187,12 @@ func TestC11_OneCallSite(t *testing.T) {
 			rt.Skip("argument not writable as a literal")
 		}
 		nt := len(kinds) >= 2
-		c.Case(nt, mustJSON(cs), "form:"+form, fmt.Sprintf("receiver-types:%d", len(kinds)), "fn:"+fn)
+		st, f := c11Site(c, cs)
+		c.Case(nt, mustJSON(cs), "form:"+form, fmt.Sprintf("receiver-types:%d", len(kinds)), "fn:"+fn, "expected:"+st)
 		if nt {
 			c.Sample(cs)
 		}
-		if f := c11Site(c, cs); f != "" {
+		if f != "" {
 			c.Fail(rt, kindOf(f), cs, "per pass the contract's result for that pass's receiver", f, f)
 		}
 	})
